@@ -163,6 +163,44 @@ def run(ctx):
         if not same_result(r_w, r_c):
             bad("weights-and-running-totals-differ", "C16/cum-weights-not-equivalent", weights_result=repr(r_w)[:100], cum_result=repr(r_c)[:100])
             continue
+        # the same running totals in other spellings: tuple, whole values as int, everything as float
+        for vname, cwv in (("tuple", tuple(cw)), ("whole-as-int", [int(c) if float(c).is_integer() else c for c in cw]),
+                           ("all-float", [float(c) for c in cw])):
+            r_v = outcome(dc, uid, pop, cum_weights=cwv)
+            ctx.evaluated()
+            if r_v[0] == "contract":
+                bad("contract-broken", "C16/argument-modified", detail=r_v[1], form="cum_weights-" + vname)
+                break
+            if not same_result(r_w, r_v):
+                bad("weights-and-running-totals-differ", "C16/cum-weights-not-equivalent", cum_form=vname, cum_weights=repr(cwv)[:120],
+                    weights_result=repr(r_w)[:100], cum_result=repr(r_v)[:100])
+                break
+        else:
+            ctx.count("cum-spellings/ok")
+        if ctx.nviolations and ctx.violations and ctx.violations[-1]["witness"].get("input_id") == uid:
+            continue
+        # a negative entry (total still positive) is not among the documented errors: whatever is selected, the two forms
+        # agree, the result is an element and the caller's lists are left alone
+        if n >= 3 and ci % 5 == 0:
+            wn = list(w)
+            j = rnd.randrange(1, n)
+            wn[j] = -abs(wn[j] or 1) / 2
+            if sum(wn) > 0:
+                cwn = list(accumulate(wn))
+                keep = list(cwn)
+                r_a = outcome(dc, uid, pop, list(wn))
+                r_b = outcome(dc, uid, pop, cum_weights=cwn)
+                ctx.evaluated(2)
+                ctx.nontrivial("negative-entry", uid, tuple(vec), j)
+                if "contract" in (r_a[0], r_b[0]) or repr(cwn) != repr(keep):
+                    bad("contract-broken", "C16/argument-modified", detail="caller's running totals were edited in place",
+                        cum_before=repr(keep)[:120], cum_after=repr(cwn)[:120], form="cum_weights-with-dip")
+                    continue
+                if r_a[0] == "ok" and not same_result(r_a, r_b):
+                    bad("weights-and-running-totals-differ", "C16/cum-weights-not-equivalent", cum_form="with-negative-entry",
+                        weights=repr(wn)[:120])
+                    continue
+                ctx.count("negative-entry/ok")
         if special:
             ctx.nontrivial("special", uid, repr(pop)[:200], tuple(vec))
         # --- no weights vs equal integer weights
